@@ -277,7 +277,7 @@ class Registry:
                     args = vs[:len(node.args)]
                     kwargs = {k.arg: v for k, v in zip(node.keywords, vs[len(node.args):])}
                     base = self.super_class(eng, f.attr)
-                    c = self.contracts.get(f"{base}.{f.attr}")
+                    c = self.lookup_method(base, f.attr)
                     if c is None:
                         raise OutOfSubset(f"super().{f.attr} without contract")
                     out += self.apply_contract(eng, c, [s.vars["self"]] + args, kwargs, s, node, self_expr=ast.Name(id="self", ctx=ast.Load()))
@@ -330,6 +330,16 @@ class Registry:
             if self.lookup_method(b, attr) is not None:
                 return b
         raise OutOfSubset(f"super() of {eng.cls}")
+
+    def _all_bases(self, cls):
+        out, todo = set(), [cls]
+        while todo:
+            c = todo.pop()
+            for b in self.class_bases.get(c, []):
+                if b not in out:
+                    out.add(b)
+                    todo.append(b)
+        return out
 
     def lookup_method(self, cls, attr):
         seen = set()
@@ -779,6 +789,11 @@ class Registry:
                     eng.spec = saved
             try:
                 a_ = bound[n]
+                if (a_.t[0] == "obj" and c.params[n][0] == "obj" and a_.t != c.params[n] and c.params[n][1] in OBJ_LAYOUT
+                        and c.params[n][1] in self._all_bases(a_.t[1]) and all(f in a_.x for f in OBJ_LAYOUT[c.params[n][1]])
+                        and n not in c.modifies):
+                    # a subclass instance passed where the (non-mutating) contract speaks about the base class: its base-class fields
+                    a_ = V(c.params[n], {f: a_.x[f] for f in OBJ_LAYOUT[c.params[n][1]]})
                 if a_.t[0] == "opt" and c.params[n][0] not in ("opt", "closure") and c.params[n] != ("opaque", "Any"):
                     if not eng.spec:
                         eng.oblige(st, znot(a_.x[0]), "pre@call", f"pre@call[{c.key}@{lineno}:{n} is not None]", lineno)
@@ -894,11 +909,22 @@ class Registry:
             eng.bound = saved_bound
 
     def pure_fn_app(self, eng, c, cs, lineno):
-        if c.modifies or c.raises or c.returns is None or c.returns[0] not in ("bool", "str", "int", "node", "data", "bag", "set"):
+        scalar = ("bool", "str", "int", "node", "data", "bag", "set")
+        is_opt = c.returns is not None and c.returns[0] == "opt" and c.returns[1][0] in scalar
+        if c.modifies or c.raises or c.returns is None or not (c.returns[0] in scalar or is_opt):
             raise OutOfSubset(f"call of {c.key} under a binder: needs a 'defn' contract or a pure total contract with a scalar result")
         pnames = list(c.params)
         args = [cs.vars[n] for n in pnames]
         terms = [t for a in args for t in self.flatten(a)]
+        if is_opt:
+            # Optional scalar: one function for 'is None', one for the value
+            key2 = c.key + "?none"
+            if c.key not in self._pure_fns:
+                self._pure_fns[c.key] = z3.Function("pure!" + c.key.replace(".", "_"), *[t.sort() for t in terms], sort_of(c.returns[1]))
+                self._pure_fns[key2] = z3.Function("pure!" + c.key.replace(".", "_") + "_isnone", *[t.sort() for t in terms], z3.BoolSort())
+            if c.ensures or c.requires:
+                raise OutOfSubset(f"pure contract {c.key} with an Optional result and a postcondition")
+            return V(c.returns, (self._pure_fns[key2](*terms), V(c.returns[1], self._pure_fns[c.key](*terms))))
         fn = self._pure_fns.get(c.key)
         if fn is None:
             fn = z3.Function("pure!" + c.key.replace(".", "_"), *[t.sort() for t in terms], sort_of(c.returns))
